@@ -100,6 +100,20 @@ example :
     let s := reach cfg [.user .start, .tick, .req 0, .tick, .tick, .user .stop, .tick]
     s.resident = some ⟨.stop, 1⟩ ∧ s.events = [.init 0, .exec 0 0 0, .exec 0 0 1, .final 0] := by decide +kernel
 
+/-- **Paused.** While the run is paused (Pause, error pause) the method's UOD commands are not executed: a tick
+that contains no Start / Stop / Restart request calls no init / exec callback; what it can still do is finalize.
+(The commands stay cancellable: `stopping_quiescent`, `OPM.C12.cancel_running_finalizes` hold in paused states too.) -/
+theorem paused_request_not_executed (s : State) (r : Req) (k : Nat) (h : s.paused = true) :
+    executeUod s r k = (s, false) := executeUod_paused r k h
+
+/-- Non-vacuity: a command runs, the run is paused for two ticks (no callback), then Stop finalizes it. -/
+example :
+    let cfg : Cfg := { cmds := [⟨6, none⟩] }
+    let s := reach cfg [.user .start, .tick, .req 0, .tick, .pause true, .tick, .tick]
+    s.events = [.init 0, .exec 0 0 0] ∧ (liveObjs s).length = 1 ∧
+    (reach cfg [.user .start, .tick, .req 0, .tick, .pause true, .tick, .tick, .user .stop, .tick]).events =
+      [.init 0, .exec 0 0 0, .final 0] := by decide +kernel
+
 /-! ### The unchanged code -/
 
 /-- Unchanged code (`fixCancel = false`): two requests of the same command in one tick → both instances execute
